@@ -278,6 +278,7 @@ class _ReadSourceGenerator:
 
         size = 0
         slice_index = 0
+        uses_data = False
         for field, count, _ in info:
             if field is None:
                 # Padding
@@ -297,11 +298,13 @@ class _ReadSourceGenerator:
                 else:
                     getter = f"data[{slice_index}:{slice_index + count}]"
                     slice_index += count
+                    uses_data = True
             elif issubclass(read_type, (Char, Wchar, Int)):
                 getter = f"buf[{size}:{size + read_type.size}]"
             else:
                 getter = f"data[{slice_index}]"
                 slice_index += 1
+                uses_data = True
 
             if issubclass(read_type, (Wchar, Int)):
                 # Types that parse bytes further down to their own type
@@ -342,7 +345,7 @@ class _ReadSourceGenerator:
             size += field_type.size
 
         fmt = _optimize_struct_fmt(info)
-        if fmt == "x" or (len(fmt) == 2 and fmt[1] == "x"):
+        if (fmt == "x" or (len(fmt) == 2 and fmt[1] == "x")) and not uses_data:
             unpack = ""
         else:
             unpack = f'data = _struct(cls.cs.endian, "{fmt}").unpack(buf)\n'
